@@ -109,6 +109,7 @@ func (x *sexp) String() string {
 // ---- probing ----
 
 type prober struct {
+	deadline time.Time // no further solver calls after this
 	relaxedUsed bool // some values come from a query without the quantified hypotheses
 	p       *Prog
 	asserts []*Term
@@ -135,6 +136,9 @@ func (pb *prober) ask(terms []*Term, caps []*Term) bool {
 	}
 	relaxed := false
 	try := func(withCaps bool) bool {
+		if !pb.deadline.IsZero() && time.Now().After(pb.deadline) {
+			return false
+		}
 		as := append([]*Term{}, pb.asserts...)
 		if relaxed && len(as) > 0 {
 			// candidate models only: universally quantified hypotheses are left out (the replay on the real
@@ -184,7 +188,7 @@ func (pb *prober) ask(terms []*Term, caps []*Term) bool {
 			var out []byte
 			select {
 			case out = <-done:
-			case <-time.After(15 * time.Second):
+			case <-time.After(11 * time.Second):
 				if cmd.Process != nil {
 					cmd.Process.Kill()
 				}
@@ -261,6 +265,9 @@ func (pb *prober) preferFirst(soft []*Term) {
 	}
 	// try them one at a time
 	for _, s := range soft {
+		if !pb.deadline.IsZero() && time.Now().After(pb.deadline.Add(-50*time.Second)) {
+			break // keep at least a minute for the probes themselves
+		}
 		as := append([]*Term{}, pb.asserts...)
 		as = append(as, pb.pins...)
 		as = append(as, s)
